@@ -254,7 +254,7 @@ fn put_one(size: usize, gcap: usize, nr: usize, nf: usize, ng: usize, pat: Optio
     };
     let resident_ok = (p.sr.val(k) == Some(v)) != (p.sf.val(k) == Some(v)) && !p.sg.has(k);
     let full = nr + nf >= size;
-    witness!(full, !pre.retained(k) && pre.r.n >= pre.rs && nr > 0, "W: new key, cache full, victim from recent");
+    witness!(full && nr > 0, !pre.retained(k) && pre.r.n >= pre.rs, "W: new key, cache full, victim from recent");
     witness!(full && nf > 0, !pre.retained(k) && pre.r.n < pre.rs, "W: new key, cache full, victim from frequent");
     witness!(full && nr == 0, !pre.retained(k) && pre.rs == 0, "W: new key, cache full, quota 0 and recent empty (fallback)");
     witness!(ng >= 1 && full, pre.g.has(k), "W: ghost hit while the cache is full");
